@@ -73,14 +73,32 @@ func changeRequestToTarget(req *http.Request, httpsDefault bool) error {
 	return nil
 }
 
-func sendRequestToTarget(req *http.Request, httpsDefault bool) (*http.Response, error) {
+// newUpstreamClient returns the client that talks to origins. It relays: a redirect is the origin's answer and
+// is handed back instead of being followed, and no compression is negotiated behind the client's back (the
+// default transport would add "Accept-Encoding: gzip" and decode the answer).
+func newUpstreamClient() *http.Client {
+	var transport http.RoundTripper = http.DefaultTransport
+	if t, ok := http.DefaultTransport.(*http.Transport); ok {
+		t = t.Clone()
+		t.DisableCompression = true
+		transport = t
+	}
+	return &http.Client{
+		Transport: transport,
+		CheckRedirect: func(*http.Request, []*http.Request) error {
+			return http.ErrUseLastResponse
+		},
+	}
+}
+
+func sendRequestToTarget(client *http.Client, req *http.Request, httpsDefault bool) (*http.Response, error) {
 	// Change request URL to point to the target server.
 	changeRequestToTarget(req, httpsDefault)
 	// Remove hop-by-hop headers in the request that should not be forwarded to the target server.
 	removeHopByHopHeaders(req.Header)
 
 	slog.Debug("Sending request", "url", req.URL, "method", req.Method)
-	resp, err := http.DefaultClient.Do(req)
+	resp, err := client.Do(req)
 	if err != nil {
 		slog.Error("Error sending request to target", "url", req.URL, "error", err)
 		return nil, fmt.Errorf("%w: %v", ErrSendRequestFailed, err)
